@@ -131,6 +131,18 @@ def render_forwarding(o, i, fl, placement):
               'def with_sig(f):', '    f.__signature__ = signatures.signature(f)', '    return f', '',
               '@specifiers.forwards_to_function(inner, %s)' % deco_args(fl, True), '@with_sig',
               'def w(%s):' % absig.render_params(o), '    return ' + call_text('inner', o, fl), '']
+    elif placement in ('auto_carrier1', 'auto_carrier2'):
+        # the callee is reached through an attribute chain on an argument (self), and a METHOD CALL on that argument (one or two attributes
+        # deep) swaps the callee before the forwarding call: nothing may be concluded from the state discovery can see
+        rot = 'self.rotate()' if placement == 'auto_carrier1' else 'self.registry.rotate()'
+        L += ['def inner(%s):' % absig.render_params(i), '    return locals()',
+              'def other(only_q=None):', '    return locals()',
+              'class Reg(object):', '    def __init__(self):', '        self.handler = inner',
+              '    def rotate(self):', '        self.handler = other',
+              'def run(svc, *a, **k):', '    return svc.registry.handler(*a, **k)',
+              'class K(object):', '    def __init__(self):', '        self.registry = Reg()',
+              '    def rotate(self):', '        self.registry.rotate()',
+              '    def w(%s):' % absig.render_params(with_self(o)), '        ' + rot, '        return ' + call_text('run', o, fl).replace('run(', 'run(self, ', 1).replace(', )', ')'), '']
     elif placement == 'auto_param_default':
         L += ['def inner(%s):' % absig.render_params(i), '    return locals()',
               'def w0(first, h=inner, %s):' % absig.render_params([p for p in o if p['k'] in ('var', 'kwo', 'vkw')]), '    return ' + call_text('h', o, fl),
